@@ -36,7 +36,7 @@ def run(ctx):
     td = threading.Thread(target=leg_d)
     td.start()
 
-    exe = ctx.harness("cookie_drv", ["cookie/cookie_drv.cpp"])
+    exe = ctx.harness("cookie_drv", ["cookie/cookie_drv.cpp"], extra=["-lcrypto"])
     import sessx
     par = sessx.Par(ctx)
     nsh = 6 if q else 16
